@@ -215,7 +215,7 @@ def i_CDQ(i, fmap):
 
 def i_CQO(i, fmap):
     fmap[rip] = fmap[rip] + i.length
-    x = fmap(eax).signextend(128)
+    x = fmap(rax).signextend(128)
     fmap[rdx] = x[64:128]
     fmap[rax] = x[0:64]
 
